@@ -214,6 +214,28 @@ func c04Targets(T *Tape) []c04Target {
 		sc := c07Codec(lz)
 		ts = append(ts, c04Target{name: fmt.Sprintf("DecodeSegment/lz4=%v", lz), valid: seg.wire, decode: func(b []byte, c, e int) { _, _ = sc.DecodeSegment(rd(b, c, e)) }})
 	}
+	// 2b. segments whose checksums are VALID whatever the alteration: the target's bytes are a descriptor
+	// (declared uncompressed length, self-contained flag, payload as transmitted) from which the segment
+	// is built with the reference CRCs, so that alterations reach the code behind the checksum stage
+	// (length bookkeeping, decompression) instead of dying at the CRC comparison.
+	for _, lz := range []bool{false, true} {
+		lz := lz
+		payload := c07Payload(T.Draw("hsegkind", 3), T.DrawGeo("hsegsize", 600), uint64(T.Draw("hsegseed", 1000)))
+		wire, uncompressed := payload, 0
+		if lz && len(payload) > 0 {
+			if seg, err := RParseSegment(RBuildSegment(payload, true, true, false), true); err == nil && seg.Compressed {
+				wire, uncompressed = seg.Wire, len(payload)
+			}
+		}
+		desc := []byte{byte(uncompressed >> 24), byte(uncompressed >> 16), byte(uncompressed >> 8), byte(uncompressed), byte(T.Draw("hsegself", 2)), 0}
+		desc = append(desc, wire...)
+		sc := c07Codec(lz)
+		ts = append(ts, c04Target{name: fmt.Sprintf("DecodeSegment(valid checksums)/lz4=%v", lz), valid: desc, decode: func(b []byte, c, e int) {
+			if w := c04ChecksummedSegment(b, lz); w != nil {
+				_, _ = sc.DecodeSegment(rd(w, c, e))
+			}
+		}})
+	}
 	// 3. decompressors, both formats
 	{
 		data := c07Payload(T.Draw("ckind", 3), T.DrawGeo("csize", 600), uint64(T.Draw("cseed", 1000)))
@@ -970,4 +992,33 @@ func c04Nest(r *Run) {
 		atLimit := per * 524288 * 524288
 		r.Violate(P, "terminates", "superlinear-decode:ReadDataType/nested-"+name, "ReadDataType on a truncated %s type nested %d deep (%d input bytes) allocates %d bytes, nested %d deep (%d input bytes) %d bytes: x%.1f for x4 input, i.e. quadratic. Extrapolated to the 1 MiB input bound (524288 levels) that is about %.0f GiB and a proportional running time: the call does not terminate in practice (measured: %v and %v)", name, d, n1, a1, 4*d, n2, a2, ratio, atLimit/(1<<30), t1, t2)
 	}
+}
+
+// c04ChecksummedSegment builds a v5 segment with valid CRC-24 and CRC-32 from a descriptor:
+// [4 bytes declared uncompressed length][1 byte self-contained][1 byte unused][payload as transmitted].
+func c04ChecksummedSegment(desc []byte, lz4On bool) []byte {
+	if len(desc) < 6 {
+		return nil
+	}
+	declared := (uint64(desc[0])<<24 | uint64(desc[1])<<16 | uint64(desc[2])<<8 | uint64(desc[3])) & RMaxPayload
+	self := uint64(desc[4] & 1)
+	payload := desc[6:]
+	if len(payload) > RMaxPayload {
+		payload = payload[:RMaxPayload]
+	}
+	var out []byte
+	hl := 3
+	hd := uint64(len(payload)) | self<<17
+	if lz4On {
+		hl = 5
+		hd = uint64(len(payload)) | declared<<17 | self<<34
+	}
+	for i := 0; i < hl; i++ {
+		out = append(out, byte(hd>>(8*uint(i))))
+	}
+	c := RCrc24(hd, hl)
+	out = append(out, byte(c), byte(c>>8), byte(c>>16))
+	out = append(out, payload...)
+	c32 := RCrc32(payload)
+	return append(out, byte(c32), byte(c32>>8), byte(c32>>16), byte(c32>>24))
 }
